@@ -385,6 +385,12 @@ def run(ctx):
                 ctx.unrecognised("C11.R5", f"{kind} arm checks its default is a {typ.__name__}", ps.where(arm), f"guard of the default error not evaluable: {undecided}")
             else:
                 ctx.check("C11.R5", f"{kind} arm checks its default is a {typ.__name__}", ok, ps.where(arm) if arm else ps.where(), f"_parse_schema {kind} arm: default check", f"a default of the wrong JSON kind for {kind} is accepted")
+        # the by-name arm: no reference is handed back without its default having been looked at
+        checks = [t for t in cfg.nodes if t.kind == "test" and R.default in {x.id for x in ast.walk(t.ast) if isinstance(x, ast.Name)} and any(isinstance(c, ast.Call) and isinstance(c.func, ast.Name) and getattr(p.resolve_func(ps.mod, c.func), "id", None) in parts for c in ast.walk(t.ast))]
+        byname_rets = [n for n in walk_local(ps.node) if isinstance(n, ast.Return) and n.value is not None and norm(n.value) in (R.schema, f"{R.named}[{R.schema}]") and f"{R.schema} not in PRIMITIVES" in true_facts(cfg, cfg.node_of(n))]
+        if byname_rets and checks:
+            skipped = [n for n in byname_rets if not cfg.must_pass(cfg.entry, cfg.node_of(n), checks)]
+            ctx.check("C11.R5", "a reference to a named type is returned only after its default was checked", not skipped, ps.where(skipped[0]) if skipped else ps.where(byname_rets[0]), f"_parse_schema: `{norm(skipped[0])}` reachable without the default check" if skipped else "", "a field whose type is a reference (to a type defined earlier, or to the record being defined) can carry a default of the wrong JSON kind without the schema being rejected")
         # a default of the right JSON kind is not refused for any other reason: the arm of each named / container kind is
         # evaluated on a valid default (for fixed: a string of `size` code points above 127, one byte each in the
         # specification's mapping of code points 0-255 to bytes)
